@@ -129,6 +129,12 @@ def targeted():
         for voters, absent in ((["v2", "v4"], ["v1"]), (["v3", "v4"], []), (["v2", "v3", "v4"], []), (["v4", "v2"], []), (["v1", "v2", "v3"], ["v4"]), (["v1", "v3"], ["v4"])):
             txs = [{"id": "t%d" % i, "type": kind, "from": OWNER[v], "args": dict({"pub": v, "height": "h+2"}, **extra)} for i, v in enumerate(voters)]
             sc("%s-%s-abs%s" % (kind, "".join(voters), "".join(absent)), [{"op": "block", "txs": txs}, {"op": "block"}, {"op": "block", "absent": absent}, {"op": "skip", "n": 3}])
+    # a voter that does not sign the block in which the vote is counted: its power counts neither for the proposal nor in the total
+    # (stakes 1000..4000): v1+v2+v3 voted, v3 absent -> 3000 of 7000 present; v3+v4 voted, v4 absent -> 3000 of 6000; v2+v3+v4 voted, v2 absent -> 7000 of 8000
+    for kind, extra in (("VoteUpdate", {"version": "v330"}), ("VoteCommission", {"variant": 1}), ("SetHaltBlock", {})):
+        for voters, absent in ((["v1", "v2", "v3"], ["v3"]), (["v3", "v4"], ["v4"]), (["v2", "v3", "v4"], ["v2"]), (["v1", "v4"], ["v1", "v2"]), (["v4", "v3"], ["v3", "v1"])):
+            txs = [{"id": "t%d" % i, "type": kind, "from": OWNER[v], "args": dict({"pub": v, "height": "h+2"}, **extra)} for i, v in enumerate(voters)]
+            sc("%s-%s-voterabsent%s" % (kind, "".join(voters), "".join(absent)), [{"op": "block", "txs": txs}, {"op": "block"}, {"op": "block", "absent": absent}, {"op": "skip", "n": 3}])
     # two competing proposals
     sc("two-proposals", [{"op": "block", "txs": [{"id": "t1", "type": "VoteUpdate", "from": "o4", "args": {"pub": "v4", "height": "h+2", "version": "v330"}},
                                                  {"id": "t2", "type": "VoteUpdate", "from": "o3", "args": {"pub": "v3", "height": "h+2", "version": "v320"}},
